@@ -167,6 +167,31 @@ func (ck *Checker) disciplineObligations() []*Obligation {
 				}
 			}
 		}
+		// ... and so can a global whose address is stored anywhere or otherwise leaves the
+		// expression it is used in: the only allowed uses are loads (of it, of its fields, of
+		// its elements) and the stores counted above
+		for _, f := range p.All {
+			if f.Blocks == nil || isInit(f) {
+				continue
+			}
+			for _, b := range f.Blocks {
+				for _, ins := range b.Instrs {
+					var ops []*ssa.Value
+					for _, op := range ins.Operands(ops) {
+						if op == nil || *op == nil {
+							continue
+						}
+						g, ok := (*op).(*ssa.Global)
+						if !ok {
+							continue
+						}
+						if !globalUseIsLoadOnly(ins, g) {
+							writers["G_"+sanitize(globalName(g))] = append(writers["G_"+sanitize(globalName(g))], p.FuncName(f)+" lets its address escape at "+p.Pos(instrPos(ins)))
+						}
+					}
+				}
+			}
+		}
 		var names []string
 		for _, short := range []string{"bcl", "main", "uvarint"} {
 			for n, m := range p.Pkgs[short].Members {
@@ -186,6 +211,7 @@ func (ck *Checker) disciplineObligations() []*Obligation {
 	// ---- C12.2 / C16: executing a Prog writes nothing reachable from it ----------------------
 	{
 		ex := bcl.Func("execute")
+		exAPI := bcl.Func("Execute")
 		progClasses := map[string]bool{"E_byte": true, "E_int": true, "E_value": true, "H_lineCalc_lfs": true, "H_lineCalc_mu": false}
 		if pt := bcl.Type("Prog"); pt != nil {
 			st := pt.Type().Underlying().(*types.Struct)
@@ -194,7 +220,7 @@ func (ck *Checker) disciplineObligations() []*Obligation {
 			}
 		}
 		var bad []string
-		for f := range e.reachable(ex) {
+		for f := range e.reachable(ex, exAPI) {
 			if f.Blocks == nil || e.direct[f] == nil {
 				continue
 			}
@@ -895,4 +921,58 @@ func instrBefore(a, b ssa.Instruction) bool {
 		return false
 	}
 	return a.Block().Dominates(b.Block())
+}
+
+// globalUseIsLoadOnly: the instruction uses the address of global g only to read from it
+// (directly, or through field/element addresses that are themselves only read), or stores to it.
+func globalUseIsLoadOnly(ins ssa.Instruction, g *ssa.Global) bool {
+	var addrOK func(v ssa.Value, depth int) bool
+	addrOK = func(v ssa.Value, depth int) bool {
+		if depth > 6 {
+			return false
+		}
+		refs := v.Referrers()
+		if refs == nil {
+			return true
+		}
+		for _, r := range *refs {
+			switch r := r.(type) {
+			case *ssa.UnOp:
+				if r.Op.String() != "*" {
+					return false
+				}
+			case *ssa.FieldAddr:
+				if r.X != v || !addrOK(r, depth+1) {
+					return false
+				}
+			case *ssa.IndexAddr:
+				if r.X != v || !addrOK(r, depth+1) {
+					return false
+				}
+			case *ssa.Store:
+				if r.Addr != v {
+					return false // the address itself is stored somewhere
+				}
+			case *ssa.DebugRef:
+			default:
+				return false
+			}
+		}
+		return true
+	}
+	switch i := ins.(type) {
+	case *ssa.UnOp:
+		return i.Op.String() == "*"
+	case *ssa.Store:
+		return i.Addr == ssa.Value(g) && i.Val != ssa.Value(g)
+	case *ssa.FieldAddr:
+		return i.X == ssa.Value(g) && addrOK(i, 0)
+	case *ssa.IndexAddr:
+		return i.X == ssa.Value(g) && addrOK(i, 0)
+	case *ssa.DebugRef:
+		return true
+	case *ssa.MapUpdate, *ssa.Lookup:
+		return false
+	}
+	return false
 }
